@@ -89,6 +89,9 @@ def str_(it, v):
                 return ""
             if len(a) == 1:
                 return str_(it, a[0])
+        if not v.cls.is_exception and not v.cls.find_method("__repr__"):
+            # object.__str__ of a plain object: "<module.Class object at 0x...>" - a text that is no generated datum (the address is not modelled)
+            return f"<{v.cls.name} object at 0x0>"
     if isinstance(v, (list, tuple, dict)) and not _has_sym(v):
         return str(v)
     if isinstance(v, list) and all(isinstance(x, (SStr, SInt, SBool, str, int, bool)) or x is None for x in v):
